@@ -26,7 +26,8 @@ import signal
 
 ID = "C08"
 DESIGN_REF = "6/C08"
-TECHNIQUE = ("Lean 4 proofs about a fuel-indexed executable model of TokenParser/StringArgs/ArgvArgs (List Char, "
+TECHNIQUE = ("Lean 4 proofs about a fuel-indexed executable model of TokenParser/StringArgs/ArgvArgs (List Char; written "
+             "method by method on the object state and proved equal to the remaining-text form the theorems use; "
              "str.isspace table regenerated from the running interpreter) + exhaustive small-scope and generated "
              "differential correspondence against the real classes + the property statement as a Python oracle")
 LEVEL_TEXT = ("Proved for ALL strings / token lists about the model: tokenize_total (the entry fuel |s|+1 is never used "
@@ -45,7 +46,7 @@ LEVEL_NOTE = ("Trusted: Lean kernel + propext/Quot.sound/Classical.choice; the h
 LEAN_MODULES = ["Clikit.Props.C08"]
 REQUIRED_THEOREMS = ["Clikit.Props.C08." + n for n in (
     "tokenize_total", "tokenize_never_fails", "tokenize_fuel_independent", "stringArgs_total", "cursor_refinement",
-    "quote_roundtrip", "quote_roundtrip_single", "roundtrip_needs_expressible", "unquoted_split",
+    "object_model_eq", "object_model_total", "quote_roundtrip", "quote_roundtrip_single", "quote_roundtrip_iff", "roundtrip_needs_expressible", "unquoted_split",
     "runs_nonempty_nospace", "option_tokens_takeWhile", "option_tokens_raw", "option_tokens_cut",
     "option_tokens_all", "option_tokens_prefix", "option_token_after_dashes", "string_argv_same",
     "quoted_string_is_argv")]
@@ -57,8 +58,9 @@ RULE = ("s: exhaustive strings up to length 5 (quick) / 7 (thorough) over {a,spa
         "quote or a backslash, or yields at least two tokens; distinct = distinct (stream, input string)")
 TRUSTED_BASE = [
     "Lean 4.33 kernel; axioms propext, Classical.choice, Quot.sound only (audited per theorem on every run)",
-    "lean/Clikit/Model/Tokenizer.lean: hand-written model of TokenParser (remaining-text abstraction of the cursor state, "
-    "proved in cursor_refinement), StringArgs, ArgvArgs - fidelity is what the correspondence run compared",
+    "lean/Clikit/Model/Tokenizer.lean: hand-written model of TokenParser on its object state (_string, _cursor, _current, "
+    "_next_), method by method (proved equal to the remaining-text scanner: object_model_eq), StringArgs, ArgvArgs - "
+    "fidelity is what the correspondence run compared",
     "tools/genparts/c08.py: str.isspace table of the running interpreter, ast shape checks of token_parser.py / *_args.py",
     "harness/props/c08.py: generators, canonicalisation, Python statement of quote/expressible/runs used by the oracle",
     "CPython str semantics (code points, str.isspace), Lean.Data.Json and the compiled driver",
@@ -588,8 +590,8 @@ def shrink(case):
         for i in range(len(s)):
             yield {"k": "s", "s": s[:i] + s[i + 1:]}
         for i, c in enumerate(s):
-            if c not in "a":
-                yield {"k": "s", "s": s[:i] + "a" + s[i + 1:]} if c not in ALPHABET else {"k": "s", "s": s[:i] + s[i + 1:]}
+            if c != "a":
+                yield {"k": "s", "s": s[:i] + "a" + s[i + 1:]}
         return
     ps, trail = case["pieces"], case["trail"]
     for i in range(len(ps)):
